@@ -18,7 +18,8 @@ What is proved at full generality
 * `layouts_match_gabi`, `sizes_match_gabi` — ppci's header classes are the gABI structures
 * `field_roundtrip`, `signed_field_roundtrip`, `record_roundtrip`, `table_roundtrip`
 * `string_table_lookup`
-* `symbols_locals_first`, `symbols_permutation`, `symbol_info_roundtrip`, `rela_info_roundtrip_*`
+* `symbols_locals_first`, `symbols_permutation`, `reader_accepts_symbol_order`, `symbol_info_roundtrip`, `rela_info_roundtrip_*`,
+  `symbol_entry_read_back`, `rela_entry_read_back_partial` (guard: relocation type fits the class's type field)
 * `align_to_aligned`, `written_chunk_stays`
 * `header_read_back` — class, byte order, e_type, e_machine, entry point
 * `segments_hold_images`, `page_loader_sees_image` — every PT_LOAD segment = Image.data at its vaddr
@@ -100,6 +101,13 @@ theorem symbols_locals_first (syms : List Sym) :
 /-- no symbol is lost or duplicated by the reordering -/
 theorem symbols_permutation (syms : List Sym) : (orderSymbols syms).Perm syms := orderSymbols_perm syms
 
+/-- the gABI reader's check of `sh_info` ("one greater than the index of the last local symbol", all locals
+    first) accepts the writer's table: null symbol, then `orderSymbols`, with `sh_info = #locals + 1` -/
+theorem reader_accepts_symbol_order (syms : List Sym) (null : Symbol) (h0 : null.bind = 0) (f : Sym → Symbol)
+    (hf : ∀ s, (f s).bind = if s.isGlobal then 1 else 0) :
+    checkInfo ((syms.filter (fun s => !s.isGlobal)).length + 1) (null :: (orderSymbols syms).map f) = .ok () :=
+  checkInfo_ordered syms null h0 f hf
+
 /-- `st_info = (bind << 4) | type` splits back (ELF_ST_BIND / ELF_ST_TYPE) -/
 theorem symbol_info_roundtrip (g : Bool) (t : SymTyp) :
     ((if g then 1 else 0) * 16 + t.st) / 16 = (if g then 1 else 0) ∧
@@ -115,6 +123,27 @@ theorem rela_info_roundtrip_64 (sym ty : Nat) (h : ty < 4294967296) :
 theorem rela_info_roundtrip_32 (sym ty : Nat) (h : ty < 256) :
     (sym * 256 + ty) / 256 = sym ∧ (sym * 256 + ty) % 256 = ty := by
   omega
+
+/-- a symbol entry as `write_symbol_table` builds it (`Model.ElfW.symHdr`), once packed successfully, is read back by
+    the reader's own symbol parser: name through the string table, value, size, binding, type, section index -/
+theorem symbol_entry_read_back (c : Cls) (strtab name : List Nat) (nsec nm shndx value size : Nat) (g : Bool) (t : SymTyp)
+    (hname : strAt strtab nm = some name)
+    (hfits : ∀ f ∈ sym c, fits f.fmt ((symHdr nm g t shndx value size).get f.name) = true)
+    (hndx : shndx < nsec ∨ SHN_LORESERVE ≤ shndx) :
+    mkSymbol strtab nsec (recOf (sym c) (symHdr nm g t shndx value size)) =
+      .ok { name := name, value := value, size := size, bind := if g then 1 else 0, type := t.st, other := 0,
+            shndx := shndx } :=
+  mkSymbol_symHdr c strtab name nsec nm shndx value size g t hname hfits hndx
+
+/-- a RELA entry as `write_rela_table` builds it (`Model.ElfW.relaHdr`), once packed successfully, is read back by the
+    reader's own entry parser: offset, symbol index, type, signed addend.  The bound on the type is the width of the
+    type field of `r_info` in the class (8 bits in ELF32: `(r_sym << 8) + r_type` would corrupt the index otherwise). -/
+theorem rela_entry_read_back_partial (c : Cls) (off rsym rtype nsyms : Nat) (add : Int)
+    (hfits : ∀ f ∈ rela c, fits f.fmt ((relaHdr c off rsym rtype add).get f.name) = true)
+    (hs : rsym < nsyms) (ht : rtype < (match c with | .c32 => 256 | .c64 => 4294967296)) :
+    mkRela c nsyms (recOf (rela c) (relaHdr c off rsym rtype add)) =
+      .ok { offset := off, sym := rsym, type := rtype, addend := add } :=
+  mkRela_relaHdr c off rsym rtype nsyms add hfits hs ht
 
 /-! ### layout of the file -/
 
